@@ -366,6 +366,17 @@ def body(ctx):
             ea, ma = member(i)
             eb, mb = member(j)
             work.append((rk, ea, classes[i].dim, eb, classes[j].dim))
+    # units that carry an ORIGIN, on either side of a mismatch: asking whether a point of another
+    # dimension converts to them must not even try to form "difference + origin displacement"
+    withorg = [u for u in units if u.has_origin]
+    ctx.require(len(withorg) >= 2, "fewer than two library units with an origin")
+    plain = [u for u in units if not u.has_origin and model.key(u.dim) != model.key(withorg[0].dim) and u.dim]
+    for k, u in enumerate(withorg):
+        o1, o2 = plain[(3 * k) % len(plain)], plain[(3 * k + 1) % len(plain)]
+        for rk in (repsel if ctx.thorough else [repsel[k % len(repsel)], "dd"]):
+            work.append((rk, "au::%s{}" % o1.name, o1.dim, "au::%s{}" % u.name, u.dim))
+            work.append((rk, "au::%s{}" % u.name, u.dim, "au::%s{}" % o2.name, o2.dim))
+            work.append((rk, "au::Kilo<au::%s>{}" % o2.name, o2.dim, "au::Milli<au::%s>{}" % u.name, u.dim))
     near = near_miss_pairs(units, rnd, 24 if ctx.thorough else 10)
     ctx.require(len(near) >= (18 if ctx.thorough else 8), "only %d near-miss pairs" % len(near))
     for k, ((ea, da), (eb, db)) in enumerate(near):
